@@ -57,6 +57,9 @@ def make_geo(kind, dim):
         return g
     if kind == 'scaled':
         return g.scale(2.0) if dim == 1 else g.scale(tuple([2.0, 0.5, 1.5][:dim]))
+    if kind == 'micro':
+        # a physically small domain (micrometres): genuine matrix entries far below 1e-14 in absolute terms
+        return g.scale(2e-5) if dim == 1 else g.scale(tuple([2e-5, 3e-5, 1e-5][:dim]))
     if kind == 'shifted':
         return g.translate(tuple([1.0, -2.0, 0.5][:dim]))
     if kind == 'curved':
@@ -163,7 +166,7 @@ class State:
             return True
         q = ctx.ch.stream('data')
         if self.geo_kind is None:
-            self.geo_kind = q.weighted([('identity', 3), ('scaled', 2), ('shifted', 1), ('curved', 3)])
+            self.geo_kind = q.weighted([('identity', 3), ('scaled', 2), ('shifted', 1), ('curved', 3), ('micro', 2)])
             ctx.count('geo.' + self.geo_kind)
         geo = make_geo(self.geo_kind, dim)
         pmin = min(cfg['degs'])
@@ -189,9 +192,11 @@ class State:
             via = q.weighted([('hdiscr', 3), ('assemble', 1)])
             if via == 'hdiscr':
                 # ONE HDiscretization object serves every functional along the history
-                hd = self.hd.get('functionals')
+                # -- the SAME object that assembles the mass matrix, so that matrix -> refine -> rhs sequences
+                # (and the reverse) occur on one long-lived HDiscretization
+                hd = self.hd.get('mass')
                 if hd is None:
-                    hd = self.hd['functionals'] = hierarchical.HDiscretization(hs, make_form('mass', dim), dict(args))
+                    hd = self.hd['mass'] = hierarchical.HDiscretization(hs, make_form('mass', dim), dict(args))
                     hd._vsim_truncate = bool(hs.truncate)
                 else:
                     ctx.count('probe.hdiscretization.reused.for.functional')
